@@ -3,7 +3,7 @@
 (* reader output, recorded from the real library on fixture files whose logical content is  *)
 (* known from the TLA+ reference writer ("Fixture" event). Deterministic checker with named *)
 (* verdicts; executions separated by Reset.                                                 *)
-EXTENDS ColumnReader, TLC, Json, IOUtils, FiniteSets
+EXTENDS ColumnReader, Bytes, TLC, Json, IOUtils, FiniteSets
 VARIABLES l, skip, bad, stats, fix, br
 Tr == ndJsonDeserialize(IOEnv.TRACE)
 Ev == Tr[l]
@@ -12,7 +12,7 @@ rtvars == <<content, maxDef, pos, live, l, skip, bad, stats, fix, br>>
 \* ---- batch reader model: rows of the projected flat columns, concatenated over row groups
 ColConcat(c) == [defs |-> Flatten([g \in 1..Len(fix.rgs) |-> fix.rgs[g][c].defs]),
                  vals |-> Flatten([g \in 1..Len(fix.rgs) |-> fix.rgs[g][c].vals])]
-TotalRows == FoldLeft(LAMBDA acc, g : acc + Len(g[1].defs), 0, fix.rgs)
+TotalRows == FoldLeft(LAMBDA acc, g : acc + Len(SelectSeq(g[1].reps, LAMBDA r : r = 0)), 0, fix.rgs)
 NonNullIn(defs, md, a, b) == Len(SelectSeq(SubSeq(defs, a, b), LAMBDA d : d = md))
 
 \* one batch column against the model at row position p, rows n: returns set of failed names
@@ -37,6 +37,14 @@ Polarity(bc, fileCol, p, n) ==
 
 Verdict ==
     CASE Ev.e = "Fixture" -> {}
+      [] Ev.e = "Meta" ->
+            {k \in {"meta:rows", "meta:row-groups", "meta:leaves"} :
+                    \/ (k = "meta:rows" /\ Ev.rows # TotalRows)
+                    \/ (k = "meta:row-groups" /\ Ev.rgs # [g \in 1..Len(fix.rgs) |-> Len(SelectSeq(fix.rgs[g][1].reps, LAMBDA r : r = 0))])
+                    \/ (k = "meta:leaves" /\ (Len(Ev.leaves) # Len(fix.leaves) \/ \E c \in 1..Len(fix.leaves) :
+                            c <= Len(Ev.leaves) /\ (Ev.leaves[c].type # fix.leaves[c].type \/ Ev.leaves[c].maxDef # fix.leaves[c].maxDef
+                                                      \/ Ev.leaves[c].maxRep # fix.leaves[c].maxRep
+                                                      \/ Ev.leaves[c].path[1] # fix.leaves[c].path[Len(fix.leaves[c].path)])))}
       [] Ev.e = "GetColumn" ->
             IF ~Ev.ok THEN {"get-column-failed"}
             ELSE IF Ev.maxDef # fix.leaves[Ev.c + 1].maxDef \/ Ev.maxRep # fix.leaves[Ev.c + 1].maxRep THEN {"column-levels"} ELSE {}
